@@ -316,6 +316,70 @@ def store_decorator_design(ck):
     return {"evaluations": n, "failures": fails}
 
 
+def native_empty_runs(ck):
+    """real compute() on configurations in which no trajectory survives the geometry stage: an empty but valid table comes back -- no exception,
+    zero rows, the header of THIS run's configuration"""
+    import contextlib
+    import importlib
+    import io
+
+    import dask
+    from nuspacesim.config import NssConfig
+    from nuspacesim.utils.misc import flatten_dict
+
+    C = importlib.import_module("nuspacesim.compute")
+    fails, n = [], 0
+
+    def target_never_visible():
+        c = NssConfig()
+        c.simulation.mode = "Target"
+        c.simulation.thrown_events = 40
+        c.simulation.target.source_DEC = float(np.radians(89.0))  # stays within a degree of the horizon plane of an equatorial detector: never occulted
+        c.detector.initial_position.altitude = 400.0
+        c.detector.optical.photo_electron_threshold = 12.0
+        return c, "Target mode, source at declination +89 deg seen from an equatorial detector (never below the limb), 40 thrown, non-default threshold / altitude"
+
+    def diffuse_zero():
+        c = NssConfig()
+        c.simulation.thrown_events = 1
+        c.detector.radio.snr_threshold = 6.5
+        return c, "Diffuse mode, one thrown trajectory that misses the acceptance cuts (seed searched below), non-default SNR threshold"
+
+    for mk in (target_never_visible, diffuse_zero):
+        cfg, what = mk()
+        seeds = [ck.seed + 1] if mk is target_never_visible else []
+        if mk is diffuse_zero:
+            # a seed for which the single thrown trajectory is rejected (about 1 in 100): found with the geometry stage alone
+            from nuspacesim.simulation.geometry.region_geometry import RegionGeom
+
+            for sd in range(2000):
+                np.random.seed(sd)
+                g = RegionGeom(cfg)
+                with np.errstate(all="ignore"):
+                    g.throw(np.random.rand(4, 1))
+                if not g.event_mask.any():
+                    seeds = [sd]
+                    break
+        for sd in seeds:
+            n += 1
+            try:
+                with contextlib.redirect_stdout(io.StringIO()), contextlib.redirect_stderr(io.StringIO()), dask.config.set(scheduler="synchronous"), np.errstate(all="ignore"):
+                    np.random.seed(sd)
+                    t = C.compute(cfg)
+                flat = {("HIERARCH " + k): v for k, v in flatten_dict(cfg.model_dump(), "Config", sep=" ").items()}  # (keys as results_table.init writes them)
+                hdr_ok = all(k in t.meta and (t.meta[k] == v or str(t.meta[k]) == str(v)) for k, v in flat.items() if isinstance(v, (int, float, bool)) and not isinstance(v, bool) or k.endswith("thrown_events"))
+                ok = len(t) == 0 and hdr_ok
+                if not ok and len(t) > 0 and mk is diffuse_zero:
+                    continue  # the searched seed did not reproduce an empty run through compute(): nothing to conclude from this design point
+                if not ok:
+                    bad = [k for k, v in flat.items() if isinstance(v, (int, float)) and not isinstance(v, bool) and not (k in t.meta and (t.meta[k] == v or str(t.meta[k]) == str(v)))][:4]
+                    fails.append({"obligation": "bounded.empty_run", "clause": "a run in which no trajectory survives returns an empty table that carries the configuration of this run", "input": {"configuration": what, "seed": sd},
+                                  "observed": {"rows": len(t), "header entries that are not this run's": bad}})
+            except Exception as ex:
+                fails.append({"obligation": "bounded.empty_run", "clause": "a run in which no trajectory survives returns an empty but valid table instead of failing", "input": {"configuration": what, "seed": sd}, "observed": "raised %r" % ex})
+    return {"evaluations": n, "failures": fails}
+
+
 def rng_sources(ck):
     """every random draw of the simulation goes through numpy's seeded global generator: no stage builds a generator of its own, uses
     the `random` / `secrets` modules, os.urandom or the clock.  Decided on the ASTs of every module under nuspacesim/simulation, utils and compute.py."""
@@ -382,11 +446,13 @@ def run(ck):
     C20.radio_call(ck, skip_defined=True)
     from contracts import C03
 
-    C03.target_checks(ck, [("Optical", True, False)], quick=True, lemmas_for=())
+    C03.target_checks(ck, [("Optical", True, False), ("Radio", True, True), ("Radio", True, False)], quick=True, lemmas_for=())  # (the dark-sky cut never reaches the radio integral)
     ck.bounded_run("kernel under the multi-process scheduler at 33 km; configuration object untouched by compute()", lambda: native_schedulers_and_frame(ck),
                    design="9 events, scheduler=processes (2 workers), detector at 33 km vs one-at-a-time; compute() with 120 thrown events at 33 km and 525 km: model_dump() of the given configuration before == after")
     ck.bounded_run("column-storing decorator on every result shape", lambda: store_decorator_design(ck),
                    design="nss_result_store with 1-4 names x {one array, tuple} x 0/1/2/3/5 rows and a recording store: one call, the returned arrays themselves, one per name")
+    ck.bounded_run("real runs without a surviving trajectory", lambda: native_empty_runs(ck),
+                   design="compute(): Target mode with a source that is never occulted (40 thrown) and Diffuse mode with one rejected trajectory (seed searched), both with non-default settings: no exception, zero rows, header = this run's configuration")
     ck.bounded_run("channel isolation on the shared geometry object", lambda: C03.channel_history(ck),
                    design="RegionGeom.mcintegral with optical-like and radio-like arguments in either order on one object vs each alone on a freshly thrown object (3 altitudes x 4000 thrown events)")
     if ck.tier == "thorough":
